@@ -203,6 +203,7 @@ def tstep (s : TState) (ws : List String) : TState × String :=
       | none => bad
     | ["clear"] =>
       run .clear 0 (fun _ _ => showList ((clearOrder t).map (·.id)) ++ " p=1")
+    | ["alt"] => fin { ct with hd := ct.hd2, hd2 := ct.hd } "ok"
     | ["swap"] =>
       -- `cstl_bintree_swap` (`cstl_rbtree_swap`): the two headers trade places (Tie3.swap_tie)
       fin { ct with hd := ct.hd2, hd2 := ct.hd } "ok"
